@@ -27,11 +27,13 @@ import FontcProofs.FeaCorrectFlat
 namespace Fontc.C11
 open Fontc.FeaCompile
 
-/-- The property at full strength: for every program of the modelled language, every registered
-    script / language, every feature set and *every* glyph string. -/
+/-- The property at full strength: for every program of the modelled language (`Wf.okUpToAnon`: no
+    violation of the modelled subset other than, possibly, the three sharing patterns of inline
+    contextual rules that fea-rs compiles wrongly), every declared language system, every feature set
+    and *every* glyph string. -/
 def FullStatement : Prop :=
   ∀ (p : Program) (script lang : Tag) (feats : List Tag) (alt : Nat) (s : List Glyph),
-    (Wf.violations p).all (fun w => w.startsWith "anon-") = true →
+    Wf.okUpToAnon p = true →
     (script, lang) ∈ Src.langsysOf p.tops →
     shape (compile p) script lang feats alt s = interp p script lang feats alt s
 
@@ -86,6 +88,22 @@ theorem compile_correct_lookup_alternate (fx : Cmp.Fixes) (root : Nat) (named : 
 example : (∀ r ∈ [Rule.alternate 1 [2, 3], .alternate 4 [5]], r.kind = .alternate)
     ∧ (([Rule.alternate 1 [2, 3], .alternate 4 [5]]).flatMap Wf.targets).Nodup := by decide
 
+/-- **Ligature substitution lookups** (`sub a [b c] by d;`, class components enumerated): tried at
+    any position under any ignore set, the `LigatureSubst` subtable (ligature sets sorted longest
+    first) does what the longest matching rule says — provided no component sequence is given
+    twice and every rule has components. -/
+theorem compile_correct_lookup_ligature (fx : Cmp.Fixes) (root : Nat) (named : String → Cmp.LookupId) (rs : List Rule)
+    (hk : ∀ r ∈ rs, r.kind = .ligature) (hnd : (rs.flatMap Wf.ligSeqs).Nodup)
+    (hne : ∀ r ∈ rs, ∀ ts x, r = Rule.ligature ts x → ts ≠ [])
+    (ign : Glyph → Bool) (alt : Nat) (rev : List Glyph) (g : Glyph) (suf : List Glyph) :
+    (Cmp.buildSubtables (rs.foldl (Cmp.Builder.add fx root named) (.ligature []))).findSome?
+        (fun st => OT.simpleSubtableStep ign alt st rev g suf)
+      = Src.ligStep ign rs rev g suf :=
+  lig_lookup_correct fx root named rs hk hnd hne ign alt rev g suf
+
+example : (∀ r ∈ [Rule.ligature [.g 1, .c [3, 4]] 11, .ligature [.g 1, .g 3, .g 5] 12], r.kind = .ligature)
+    ∧ (([Rule.ligature [.g 1, .c [3, 4]] 11, .ligature [.g 1, .g 3, .g 5] 12]).flatMap Wf.ligSeqs).Nodup := by decide
+
 /-- **Single positioning lookups.** -/
 theorem compile_correct_lookup_spos (fx : Cmp.Fixes) (root : Nat) (named : String → Cmp.LookupId) (rs : List Rule)
     (hk : ∀ r ∈ rs, r.kind = .spos) (hnd : (rs.flatMap Wf.targets).Nodup)
@@ -126,7 +144,8 @@ theorem shape_eq_interp_of_correspondence (p : Program) (t : OT.Tables) (script 
     Programs: `languagesystem` statements (`lsTops ls`) followed by feature blocks (`featTops fs`)
     whose statements are `lookupflag` and rule statements (`FlatBody`); every lookup of the program —
     a run of rules of one type under one flag, `Src.entries p` — is a single, multiple or alternate
-    substitution or a single positioning lookup in which no glyph is targeted twice (`hents`); no
+    substitution or a single positioning lookup in which no glyph is targeted twice, or a ligature
+    substitution lookup in which no component sequence is given twice (`runOkB`, decidable); no
     single rule stands next to a multiple rule within a run (`NoMixFrom`, fea-rs would merge them);
     `lookupflag` classes are sorted sets, mark attachment classes come from a family `U` of
     pairwise disjoint classes (`FlagsOk`, `hU1`, `hU2`); GDEF entries are distinct.
@@ -139,22 +158,23 @@ theorem compile_correct_flat (fx : Cmp.Fixes) (p : Program) (ls : List (Tag × T
     (U : List (List Glyph))
     (htops : p.tops = lsTops ls ++ featTops fs)
     (hbodies : ∀ x ∈ fs, FlatBody x.2 ∧ FlagsOk U x.2 ∧ NoMixFrom {} x.2)
-    (hents : ∀ e ∈ Src.entries p,
-      ((headKind e.lookup.rules).isMapGsub = true ∨ headKind e.lookup.rules = .spos) ∧
-      (e.lookup.rules.flatMap Wf.targets).Nodup)
+    (hents : ∀ e ∈ Src.entries p, runOkB e.lookup.rules = true)
     (hgdef : (p.gdef.map (·.1)).Nodup)
     (hU1 : ∀ c ∈ U, c.Nodup) (hU2 : ∀ c ∈ U, ∀ c' ∈ U, c ≠ c' → ∀ g ∈ c, g ∉ c')
     (script lang : Tag) (hreg : (script, lang) ∈ Src.langsysOf p.tops)
     (feats : List Tag) (alt : Nat) (str : List Glyph) :
     shape (compileWith fx p) script lang feats alt str = interp p script lang feats alt str :=
-  Fontc.FeaCompile.compile_correct_flat fx p ls fs U htops hbodies hents hgdef hU1 hU2 script lang hreg feats alt str
+  Fontc.FeaCompile.compile_correct_flat fx p ls fs U htops hbodies
+    (fun e he => runOk_of_runOkB _ (hents e he)) hgdef hU1 hU2 script lang hreg feats alt str
 
 /-! non-vacuity: a program with two language systems, GDEF classes, a `liga` feature with three
-    lookups (single under IgnoreMarks + MarkAttachmentType, multiple, alternate) and a `kern` feature -/
+    lookups (single and ligature under IgnoreMarks + MarkAttachmentType, multiple, alternate) and a
+    `kern` feature -/
 
 def exLs : List (Tag × Tag) := [("DFLT", "dflt"), ("latn", "dflt")]
 def exFs : List (Tag × List Stmt) :=
   [("liga", [.flag { im := true, attach := some [13] }, .rule (.single (.g 1) (.g 2)), .rule (.single (.c [3, 4]) (.g 5)),
+             .flag { il := true }, .rule (.ligature [.g 1, .c [3, 4]] 11), .rule (.ligature [.g 1, .g 3, .g 5] 12),
              .flag {}, .rule (.multiple 6 [7, 8]), .rule (.alternate 2 [9, 10])]),
    ("kern", [.rule (.spos (.c [1, 2]) ⟨0, 0, 10, 0⟩)])]
 def exProg : Program := { gdef := [(1, 1), (2, 1), (13, 3), (14, 3)], tops := lsTops exLs ++ featTops exFs }
@@ -164,11 +184,12 @@ theorem exProg_bodies : ∀ x ∈ exFs, FlatBody x.2 ∧ FlagsOk [[13]] x.2 ∧ 
   simp only [exFs, List.mem_cons, List.not_mem_nil, or_false] at hx
   rcases hx with rfl | rfl
   · refine ⟨?_, ?_, ?_⟩
-    · intro st hst; simp at hst; rcases hst with rfl | rfl | rfl | rfl | rfl | rfl <;> simp
+    · intro st hst; simp at hst; rcases hst with rfl | rfl | rfl | rfl | rfl | rfl | rfl | rfl | rfl <;> simp
     · intro f hf
       simp at hf
-      rcases hf with rfl | rfl
+      rcases hf with rfl | rfl | rfl
       · exact ⟨⟨by intro c h; cases h; decide, by simp⟩, by intro c h; cases h; decide⟩
+      · exact ⟨⟨by simp, by simp⟩, by simp⟩
       · exact ⟨⟨by simp, by simp⟩, by simp⟩
     · simp [NoMixFrom, Src.walkStmt, Src.Walk.flush, headKind, Wf.mixes, Rule.kind]
   · refine ⟨?_, ?_, ?_⟩
@@ -176,14 +197,85 @@ theorem exProg_bodies : ∀ x ∈ exFs, FlatBody x.2 ∧ FlagsOk [[13]] x.2 ∧ 
     · intro f hf; simp at hf
     · simp [NoMixFrom]
 
-theorem exProg_entries : ∀ e ∈ Src.entries exProg,
-    ((headKind e.lookup.rules).isMapGsub = true ∨ headKind e.lookup.rules = .spos) ∧
-    (e.lookup.rules.flatMap Wf.targets).Nodup := by decide
+theorem exProg_entries : ∀ e ∈ Src.entries exProg, runOkB e.lookup.rules = true := by decide
 
 /-- the flat fragment applies to `exProg`, for latn/dflt, any feature set, any string -/
 example (feats : List Tag) (alt : Nat) (str : List Glyph) :
     shape (compile exProg) "latn" "dflt" feats alt str = interp exProg "latn" "dflt" feats alt str :=
   compile_correct_flat {} exProg exLs exFs [[13]] rfl exProg_bodies exProg_entries (by decide) (by decide) (by decide)
     "latn" "dflt" (by decide) feats alt str
+
+/-! ### the full statement is false of fea-rs as it is (defect F-C11-1) -/
+
+/-- `feature test { sub d' c by e;  sub c [a d]' by f; } test;`
+    (glyph ids: a = 1, c = 3, d = 4, e = 5, f = 6) -/
+def cexProg : Program :=
+  { gdef := [],
+    tops := [.feature "test" [
+      .rule (.chain [] [(.g 4, [])] [.g 3] (.single (.g 5))),
+      .rule (.chain [.g 3] [(.c [1, 4], [])] [] (.single (.g 6)))]] }
+
+def cexLookup : Src.Lookup :=
+  ⟨none, {}, [.chain [] [(.g 4, [])] [.g 3] (.single (.g 5)), .chain [.g 3] [(.c [1, 4], [])] [] (.single (.g 6))]⟩
+
+theorem pass_two (ign : Glyph → Bool) (st : Step) (g1 g2 o : Glyph) (h1 : ign g1 = false)
+    (h2 : st [] g1 [g2] = some ([o], [g2])) (h3 : ign g2 = false) (h4 : st [o] g2 [] = none) :
+    Src.pass ign st [] [g1, g2] = [o, g2] := by
+  rw [Src.pass]; simp only [h1, h2]; simp
+  rw [Src.pass]; simp only [h3, h4]; simp
+  rw [Src.pass]; simp
+
+theorem cex_entries : Src.entries cexProg = [⟨cexLookup, [("test", "DFLT", "dflt")]⟩] := by decide
+
+theorem cex_interp : interp cexProg "DFLT" "dflt" ["test"] 0 [4, 3] = [(5, Value.zero), (3, Value.zero)] := by
+  simp only [interp, cex_entries]
+  have hact : ([⟨cexLookup, [("test", "DFLT", "dflt")]⟩] : List Src.Entry).filter (·.active "DFLT" "dflt" ["test"])
+      = [⟨cexLookup, [("test", "DFLT", "dflt")]⟩] := by decide
+  rw [hact]
+  have hg : ([⟨cexLookup, [("test", "DFLT", "dflt")]⟩] : List Src.Entry).filter (!·.lookup.isPos)
+      = [⟨cexLookup, [("test", "DFLT", "dflt")]⟩] := by decide
+  have hp : ([⟨cexLookup, [("test", "DFLT", "dflt")]⟩] : List Src.Entry).filter (·.lookup.isPos) = [] := by decide
+  rw [hg, hp]
+  simp only [List.foldl_cons, List.foldl_nil, Src.applyGsub]
+  rw [pass_two _ _ 4 3 5 (by decide) (by decide) (by decide) (by decide)]
+  rfl
+theorem pass_two_ot (ign : Glyph → Bool) (st : Step) (g1 g2 o : Glyph) (h1 : ign g1 = false)
+    (h2 : st [] g1 [g2] = some ([o], [g2])) (h3 : ign g2 = false) (h4 : st [o] g2 [] = none) :
+    OT.pass ign st [] [g1, g2] = [o, g2] := by
+  rw [OT.pass]; simp only [h1, h2]; simp
+  rw [OT.pass]; simp only [h3, h4]; simp
+  rw [OT.pass]; simp
+
+theorem cex_gdef : (compile cexProg).gdef = {} := by
+  have ha : (cexProg.tops.foldl (Cmp.St.top {}) {}).attachIds = [] := by decide
+  have hf : (cexProg.tops.foldl (Cmp.St.top {}) {}).filterIds = [] := by decide
+  simp only [compile, compileWith, Cmp.buildGdef, ha, hf]
+  simp [cexProg]
+
+theorem cex_shape : shape (compile cexProg) "DFLT" "dflt" ["test"] 0 [4, 3] = [(6, Value.zero), (3, Value.zero)] := by
+  have h1 : OT.activeLookups (compile cexProg).gsub "DFLT" "dflt" ["test"] = [0] := by decide
+  have h2 : OT.activeLookups (compile cexProg).gpos "DFLT" "dflt" ["test"] = [] := by decide
+  simp only [shape, h1, h2, List.foldl_cons, List.foldl_nil, OT.applyAtIdx]
+  have hL : (compile cexProg).gsub.lookups = [
+      ⟨6, 0, none, [.chain3 [] [[4]] [[3]] [(0, 1)], .chain3 [[3]] [[1, 4]] [] [(0, 1)]]⟩,
+      ⟨1, 0, none, [.single [(1, 6), (4, 6)]]⟩] := by decide
+  simp only [hL, List.getElem?_cons_zero, OT.applyGsub, cex_gdef]
+  rw [pass_two_ot _ _ 4 3 6 (by decide) (by decide) (by decide) (by decide)]
+  rfl
+
+/-- the full statement fails on fea-rs as it is -/
+theorem not_FullStatement_witness :
+    shape (compile cexProg) "DFLT" "dflt" ["test"] 0 [4, 3] ≠ interp cexProg "DFLT" "dflt" ["test"] 0 [4, 3] := by
+  rw [cex_shape, cex_interp]; decide
+
+theorem cex_okUpToAnon : Wf.okUpToAnon cexProg = true := by decide
+
+/-- **The full statement fails**: on the string `d c` the source says `e c`, the compiled tables give
+    `f c` — the class → glyph inline substitution of the second rule overwrote `d → e` in the shared
+    anonymous lookup.  (The same input is replayed on the real compiler: stream `c11x`, class
+    `anon-single-clobber`; with the repair `{ anonSingle := true }` the model agrees with the source.) -/
+theorem not_FullStatement : ¬ FullStatement := by
+  intro h
+  exact not_FullStatement_witness (h cexProg "DFLT" "dflt" ["test"] 0 [4, 3] cex_okUpToAnon (by decide))
 
 end Fontc.C11
